@@ -362,6 +362,10 @@ wait:
 		fmt.Printf("slowest case %d: %v (%s) %q\n", slowest.idx, slowest.dur, slowest.cfg, slowest.input)
 	}
 	res.Extra = map[string]interface{}{"malformed": malformedN, "rejected": rejected, "cases": *n, "known_mode": *known, "workers": workers}
+	if res.Extra == nil {
+		res.Extra = map[string]interface{}{}
+	}
+	runBoxCases(*outDir, res.Extra)
 	if err := res.Write(resPath); err != nil {
 		fmt.Fprintln(os.Stderr, "cssoracle:", err)
 		os.Exit(2)
